@@ -409,6 +409,7 @@ ConvT(k)   == Tok("conv", k, 0)
 LenT       == Tok("len", "", 0)
 ArrLenT    == Tok("arrlen", "", 0)
 IotaT      == Tok("iota", "", 0)
+FwdT       == Tok("fwd", "", 0)    \* FwdZ: an untyped constant 10 declared at package level AFTER the block that refers to it
 
 \* Directed float-rounding literals (integers; xf writes them as float literals "d.0").
 \* A midpoint of binary32 / binary64 is (2^p + odd) scaled by 2^60, so that "midpoint +- 1" is the
@@ -458,13 +459,13 @@ LitValue(o, n) ==
 
 \* Syntactic facts about the operands of the binary operator at position i, used to tag
 \* cases (tags never change a verdict; they let a failing case be attributed precisely).
-Arity(t) == CASE t.k \in {"lit", "iota"} -> 0 [] t.k = "bin" -> 2 [] OTHER -> 1
+Arity(t) == CASE t.k \in {"lit", "iota", "fwd"} -> 0 [] t.k = "bin" -> 2 [] OTHER -> 1
 RECURSIVE SpanStart(_, _, _)
 SpanStart(toks, j, need) ==            \* first index of the sub-expression whose root is at j
     LET m == need + Arity(toks[j]) - 1 IN IF m = 0 THEN j ELSE SpanStart(toks, j - 1, m)
 \* a plain operand: a non-negative literal or iota (a negative literal is -x in Go's grammar
 \* and is rendered in parentheses)
-Plain(t) == t.k = "iota" \/ (t.k = "lit" /\ ~(t.o = "i" /\ t.n < 0))
+Plain(t) == t.k \in {"iota", "fwd"} \/ (t.k = "lit" /\ ~(t.o = "i" /\ t.n < 0))
 LenOfCompound(toks, j) == toks[j].k = "len" /\ ~Plain(toks[j - 1])
 SynTags(toks, i, a, b, rtags) ==
     LET r  == i - 1                              \* root of the right operand
@@ -482,6 +483,7 @@ Step(toks, i, st, iota) ==
     LET n == Len(st) tok == toks[i] IN
     CASE tok.k = "lit"    -> Append(st, Ok(LitValue(tok.o, tok.n)))
       [] tok.k = "iota"   -> Append(st, Ok(IntC("int", "untyped", FromInt(iota))))
+      [] tok.k = "fwd"    -> Append(st, Ok(IntC("int", "untyped", FromInt(10))))
       [] tok.k = "un"     -> Append(SubSeq(st, 1, n - 1),
                                     AddTags(Apply1(tok.o, st[n]), IF LenOfCompound(toks, i - 1) THEN {"len-compound-operand"} ELSE {}))
       [] tok.k = "conv"   -> Append(SubSeq(st, 1, n - 1),
@@ -546,7 +548,13 @@ UseVerdict(ctx, k, toks) ==
 (* implicit repetition or explicit [typ] = expression (typ "untyped" = none).  *)
 (* iota is the index of the spec in the block, counted from 0, whatever the    *)
 (* form of the spec.                                                           *)
-Spec(blank, impl, typ, toks) == [blank |-> blank, impl |-> impl, typ |-> typ, toks |-> toks]
+(* A spec with TWO names (A, C [typ] = e1, e2  |  A, C  |  _, _) carries the second  *)
+(* expression in toks2 (<<>>: one name); the two columns are independent of each     *)
+(* other: each name takes the value of ITS expression with the spec's iota.          *)
+Spec2(blank, impl, typ, toks, toks2) == [blank |-> blank, impl |-> impl, typ |-> typ, toks |-> toks, toks2 |-> toks2]
+Spec(blank, impl, typ, toks) == Spec2(blank, impl, typ, toks, <<>>)
+Col2(specs) == [j \in 1..Len(specs) |-> [specs[j] EXCEPT !.toks = specs[j].toks2]]
+IsPairBlock(specs) == specs # <<>> /\ specs[1].toks2 # <<>>
 
 \* the (typ, toks) in force at spec j
 RECURSIVE Effective(_, _)
@@ -568,7 +576,7 @@ SpecValue(specs, j) ==
 BlockValues(specs) == [j \in 1..Len(specs) |-> SpecValue(specs, j)]
 \* textual substitution of every implicit spec by the expression list it repeats
 Explicate(specs) == [j \in 1..Len(specs) |->
-                        LET e == Effective(specs, j) IN Spec(specs[j].blank, FALSE, e.typ, e.toks)]
+                        LET e == Effective(specs, j) IN Spec2(specs[j].blank, FALSE, e.typ, e.toks, e.toks2)]
 Trailer == <<Spec(FALSE, FALSE, "untyped", <<IotaT>>), Spec(FALSE, TRUE, "untyped", <<>>)>>
 RECURSIVE WorstOf(_, _)
 WorstOf(vals, j) == IF j = Len(vals) THEN vals[j] ELSE Worst(vals[j], WorstOf(vals, j + 1))
@@ -770,6 +778,8 @@ FormToks(f, a, b) ==
       [] f = "rune"  -> <<Lit("r", 97), IotaT, BinT("+")>>                        \* 'a' + iota
       [] f = "conv8" -> <<IotaT, Lit("i", a), BinT("*"), ConvT("int8")>>          \* int8(iota*a)
       [] f = "convu" -> <<IotaT, Lit("i", a), BinT("*"), ConvT("uint8")>>
+      [] f = "fwd"   -> <<IotaT, FwdT, BinT("+")>>                               \* iota + FwdZ
+      [] f = "fwdl"  -> <<FwdT, IotaT, BinT("*")>>                               \* FwdZ * iota
 Forms == {FormToks("iota", 0, 0), FormToks("shl", 0, 0), FormToks("shl10", 0, 0), FormToks("lin", 3, 1),
           FormToks("lin", 50, -1), FormToks("neg", 0, 0), FormToks("lit", 10, 0), FormToks("flt", 0, 0),
           FormToks("rune", 0, 0), FormToks("conv8", 50, 0), FormToks("convu", 1, 0)}
@@ -781,8 +791,24 @@ Explicits(fs, ts) == {Spec(bl, FALSE, t, f) : bl \in BOOLEAN, t \in ts, f \in fs
 Implicits == {Spec(bl, TRUE, "untyped", <<>>) : bl \in BOOLEAN}
 BlocksOf(n, fs, ts) ==
     {<<h>> \o tl : h \in {s \in Explicits(fs, ts) : ~s.blank}, tl \in [1..(n - 1) -> Explicits(fs, ts) \cup Implicits]}
+\* blocks whose expressions refer to a constant declared after them (the value of iota must not depend on
+\* WHEN the spec is evaluated), and blocks of two-name specs with implicit repetition of the whole expression list
+\* (held back - FALSE - until the repair of iota as a running counter and of the implicit repetition of
+\* two-name specs is in /repo: F-C03-12)
+ExtraBlocksOn == FALSE
+FwdForms == {FormToks("fwd", 0, 0), FormToks("fwdl", 0, 0), FormToks("iota", 0, 0)}
+FwdBlocks ==
+    {<<Spec(FALSE, FALSE, t, h)>> \o tl : t \in RedTyps, h \in FwdForms \ {FormToks("iota", 0, 0)},
+        tl \in [1..2 -> {Spec(FALSE, FALSE, "untyped", f) : f \in FwdForms} \cup Implicits]}
+PairForms == {<<FormToks("iota", 0, 0), FormToks("lin", 50, -1)>>, <<FormToks("shl", 0, 0), FormToks("iota", 0, 0)>>,
+              <<FormToks("lin", 3, 1), FormToks("fwd", 0, 0)>>}
+PairTail == {Spec2(FALSE, FALSE, "untyped", pf[1], pf[2]) : pf \in PairForms}
+            \cup {Spec2(bl, TRUE, "untyped", <<>>, <<>>) : bl \in BOOLEAN}
+PairBlocks ==
+    {<<Spec2(FALSE, FALSE, t, pf[1], pf[2])>> \o tl : t \in RedTyps, pf \in PairForms, tl \in [1..2 -> PairTail]}
 BlockCases(z) ==
     UNION {{BlockCase(b, pl) : b \in BlocksOf(n, IF Kds = "min" THEN MinForms ELSE RedForms, RedTyps), pl \in {"pkg", "func"}} : n \in 1..MaxSpecs}
+    \cup (IF ExtraBlocksOn THEN {BlockCase(b, pl) : b \in FwdBlocks \cup PairBlocks, pl \in {"pkg", "func"}} ELSE {})
 
 -------------------------------------------------------------------------------
 VARIABLES case, res
@@ -793,7 +819,8 @@ Pending == [st |-> "?", c |-> Dummy, why |-> NoWhy, tags |-> {}, nrej |-> 0, lim
 Verdict(cs) ==
     CASE cs.tier = "expr"  -> Eval(cs.toks, 0)
       [] cs.tier = "use"   -> UseVerdict(cs.ctx, cs.kind, cs.toks)
-      [] cs.tier = "block" -> WorstOf(BlockValues(cs.specs), 1)
+      [] cs.tier = "block" -> IF IsPairBlock(cs.specs) THEN Worst(WorstOf(BlockValues(cs.specs), 1), WorstOf(BlockValues(Col2(cs.specs)), 1))
+                              ELSE WorstOf(BlockValues(cs.specs), 1)
 
 InitE1     == case \in {ExprCase(t) : t \in E1Trees(Lits)} /\ res = Pending
 MinKinds   == {"int8", "uint8", "int64", "float32"}
@@ -938,7 +965,8 @@ IotaIsIndex ==
 IotaRestarts ==
     IsBlock => \A j \in 1..2 : LET v == SpecValue(Trailer, j) IN v.st = "ok" /\ v.c.i = FromInt(j - 1)
 ImplicitIsTextual ==
-    IsBlock => BlockValues(case.specs) = BlockValues(Explicate(case.specs))
+    IsBlock => /\ BlockValues(case.specs) = BlockValues(Explicate(case.specs))
+               /\ (IsPairBlock(case.specs) => BlockValues(Col2(case.specs)) = BlockValues(Col2(Explicate(case.specs))))
 \* inserting a blank spec in front of the tail shifts iota by one for what follows
 BlankStillCounts ==
     IsBlock => \A j \in 1..Len(case.specs) :
@@ -952,8 +980,11 @@ OutCase ==
      place |-> case.place,
      specs |-> [j \in 1..Len(case.specs) |->
                   [blank |-> case.specs[j].blank, impl |-> case.specs[j].impl, typ |-> case.specs[j].typ,
-                   toks |-> case.specs[j].toks, lits |-> LitDecs(case.specs[j].toks)]],
+                   toks |-> case.specs[j].toks, lits |-> LitDecs(case.specs[j].toks),
+                   toks2 |-> case.specs[j].toks2, lits2 |-> LitDecs(case.specs[j].toks2)]],
      vals |-> IF case.tier = "block" THEN [j \in 1..Len(case.specs) |-> OutRes(SpecValue(case.specs, j))] ELSE <<>>,
+     vals2 |-> IF case.tier = "block" /\ IsPairBlock(case.specs)
+               THEN [j \in 1..Len(case.specs) |-> OutRes(SpecValue(Col2(case.specs), j))] ELSE <<>>,
      \* every block is followed by the block  const ( B0 = iota; B1 ): iota starts again at 0
      trail |-> IF case.tier = "block" THEN [j \in 1..2 |-> OutRes(SpecValue(Trailer, j))] ELSE <<>>,
      res |-> OutRes(res)]
